@@ -92,6 +92,8 @@ def run(ids, tier="quick"):
                 t0 = time.time()
                 rc, out = sh([os.path.join(VERIF, "check"), pr, "--tier", tier], cwd=VERIF, env=env)
                 rules = sorted({ln.strip().split(" runs=")[0].replace("rule=", "") for ln in out.splitlines() if ln.strip().startswith("rule=")})
+                if rc == 1 and "VIOLATION property=" not in out:
+                    rc = 2  # the checker itself failed to run: not a verdict
                 detected[pr] = {"exit": rc, "rules": rules, "wall_s": round(time.time() - t0, 1)}
                 print(f"{d}: ./check {pr} --tier {tier} -> exit {rc} {rules}")
                 sys.stdout.flush()
